@@ -48,3 +48,20 @@ End C10.
 Print Assumptions C10_message_level.
 Print Assumptions C10_truncated.
 Print Assumptions C10_oversize.
+
+(* a concrete run (B = 3, maximum record length 100, one LLVAR element, latin_1): the second record's LLVAR length
+   prefix is "0x" — record 1 is delivered, then the data error names record 2 and carries its 4 + 25 raw bytes;
+   the same for the file written 1014-blocked and read blocked *)
+Example C10_example :
+  match codec_named [108;97;116;105;110;95;49]%N with
+  | Some cd =>
+    let cfg := [(2, mkfc LLVAR (Some 0) PTStr [] PNone false)] in
+    let good := map byte_of_N [49;49;52;52; 64;0;0;0;0;0;0;0;0;0;0;0;0;0;0;0; 48;51; 49;50;51]%N in
+    let bad := map byte_of_N [49;49;52;52; 64;0;0;0;0;0;0;0;0;0;0;0;0;0;0;0; 48;120; 49;50;51]%N in
+    let d1 := [(KMTI, VStr [49;49;52;52]%N); (KDE 2, VStr [49;50;51]%N)] in
+    loads cfg cd false bad = Raise EData /\
+    iread_all 3 100 cfg cd (frame good ++ frame bad ++ be32 0) false = Ok ([d1], ErrData 2 (frame bad)) /\
+    iread_all 3 100 cfg cd (vbs_list_to_bytes 3 true [good; bad]) true = Ok ([d1], ErrData 2 (frame bad))
+  | None => False
+  end.
+Proof. vm_compute. repeat split; reflexivity. Qed.
